@@ -371,6 +371,11 @@ def call(eng, ctx, cp, self_ty, trait, generics, args, env):
         v = args[0]
         if isinstance(v, IterV):
             return v
+        if isinstance(v, Ref) and isinstance(deref(v), VecV):
+            vv = deref(v)
+            if vv.elems is None:
+                _unsupported("iteration over opaque byte string")
+            return IterV([Ref(vv.elems, i) for i in range(len(vv.elems))])
         if isinstance(v, VecV):
             if v.elems is None:
                 _unsupported("iteration over opaque byte string")
@@ -588,6 +593,10 @@ def vec_model(eng, ctx, cp, self_ty, trait, m, args):
         return sort_by(eng, ctx, v, args[1])
     if m in ("as_slice", "as_bytes", "as_str", "as_mut_slice"):
         return args[0]
+    if m in ("iter", "iter_mut"):
+        if v.elems is None:
+            _unsupported("iteration over opaque byte string")
+        return IterV([Ref(v.elems, i) for i in range(len(v.elems))])
     if m == "pop":
         if not v.elems:
             return OPT_NONE()
@@ -821,6 +830,15 @@ def stub_into_writer(eng, ctx, args):
     an opaque, non-empty byte string standing for its canonical encoding."""
     v = deref(args[0])
     w = deref(args[1])
+    if isinstance(v, Adt) and v.ty == "Value" and ctx.side.get("label_bytes") and \
+            (v.variant == "Integer" or (v.variant == "Text" and v.fields[0].elems is not None
+                                        and len(v.fields[0].elems) < 24)):
+        # a single integer / short text (what Label::cmp_canonical serialises): the reference
+        # deterministic encoding as concrete-length bytes with symbolic content
+        if not isinstance(w, VecV) or w.elems:
+            _unsupported("into_writer into a non-empty buffer")
+        w.elems, w.opaque = leaf_encoding(ctx, v), None
+        return OK(UNIT)
     snap = deep_clone(v)
     out = ctx.fresh_opaque("enc", "vec", nonempty=True)
     ctx.side.setdefault("written", {})[out.opaque.ident] = snap
@@ -832,3 +850,29 @@ def stub_into_writer(eng, ctx, args):
     else:
         _unsupported("writer %r" % (w,))
     return OK(UNIT)
+
+
+def leaf_encoding(ctx, v):
+    """RFC 8949 shortest-form encoding of an integer / short text Value as a list of byte scalars."""
+    if v.variant == "Text":
+        el = v.fields[0].elems
+        return [Sc("u8", 0x60 + len(el))] + list(el)
+    x = v.fields[0].fields[0]           # i128
+    if not is_sym(x.v):
+        import concrete
+        return [Sc("u8", b) for b in concrete.encode(("int", int(x.v)))]
+    t = x.v
+    neg = ctx.branch(t < 0, "enc:negative")
+    n = z3.simplify(z3.Extract(63, 0, (-1 - t) if neg else t))
+    mt = 0x20 if neg else 0x00
+    bounds = [(24, 0), (0x100, 1), (0x10000, 2), (0x100000000, 4)]
+    conds = [z3.ULT(n, z3.BitVecVal(b, 64)) for b, _ in bounds]
+    classes = [conds[0]] + [z3.And(z3.Not(conds[i - 1]), conds[i]) for i in range(1, 4)] + [z3.Not(conds[3])]
+    k = ctx.choose_cond(classes, "enc:int-width")
+    if k == 0:
+        return [Sc("u8", z3.simplify(z3.BitVecVal(mt, 8) | z3.Extract(7, 0, n)))]
+    width = [1, 2, 4, 8][k - 1]
+    out = [Sc("u8", mt | (23 + k))]
+    for i in reversed(range(width)):
+        out.append(Sc("u8", z3.simplify(z3.Extract(8 * i + 7, 8 * i, n))))
+    return out
